@@ -1960,10 +1960,15 @@ class Transaction(object):
         if lock_script.startswith(b'\x6a'):
             if value != 0:
                 raise TransactionError("Output value for OP_RETURN script must be 0")
-        self.outputs.append(Output(value=int(value), address=address, public_hash=public_hash,
-                                   public_key=public_key, lock_script=lock_script, spent=spent, output_n=output_n,
-                                   encoding=encoding, spending_txid=spending_txid, spending_index_n=spending_index_n,
-                                   strict=strict, change=change, network=self.network.name))
+        output = Output(value=int(value), address=address, public_hash=public_hash,
+                        public_key=public_key, lock_script=lock_script, spent=spent, output_n=output_n,
+                        encoding=encoding, spending_txid=spending_txid, spending_index_n=spending_index_n,
+                        strict=strict, change=change, network=self.network.name)
+        if output.network.name != self.network.name:
+            # An Address or HDKey object brings its own network along
+            raise TransactionError("Network %s of output address is different from transaction network %s" %
+                                   (output.network.name, self.network.name))
+        self.outputs.append(output)
         return output_n
 
     def merge_transaction(self, transaction):
